@@ -62,10 +62,10 @@ type Plan struct {
 
 var (
 	keys   = []string{"k1", "k2", "k3", "kx"}
-	rids   = []string{"a", "b", "c", "d", "e"}
+	rids   = []string{"a", "b", "c", "ac", "cab"} // (literal ID expressions match as substrings)
 	values = []string{"", "x", "y", "abc", "0", "5", "10", "-3", "007", "5k", "1Ki", "1ki", "1k", "1K", "1000", "1023", "1024", "1025", "2 M", "2Mi", "2097152", "2000000", " 3g ", "3Gi", "1KI",
 		"1P", "1Pi", "1T", "1 Ti", "5kilo", "1e3", "k", "-", "9223372036854775807", "9999999999G"}
-	idRes = []string{"", "", "^[ab]$", "c", "^$", "[d-e]", "^a"}
+	idRes = []string{"", "", "^[ab]$", "c", "^$", "[b-c]", "^a", "a", "ab", "^c$"}
 )
 
 func genTerm(t *rapid.T) Term {
@@ -408,6 +408,12 @@ func replay(evs []state.Event) (map[string]string, []string, string) {
 	booted := false
 
 	for i, e := range evs {
+		// every change delivered after the bootstrap carries the bookmark a consumer resumes from - also the changes a
+		// filtered watch rewrites (an update into or out of the selection arrives as Created / Destroyed)
+		if booted && (e.Type == state.Created || e.Type == state.Updated || e.Type == state.Destroyed) && len(e.Bookmark) == 0 {
+			return nil, nil, fmt.Sprintf("event %d (%s of %s) was delivered after the bootstrap without a bookmark", i, e.Type, e.Resource.Metadata().ID())
+		}
+
 		switch e.Type {
 		case state.Bootstrapped:
 			booted = true
